@@ -203,6 +203,7 @@ def run_real(rp, case, scratch):
         os.environ['PBS_JOBID'] = '1.x'
         os.environ['LSB_DJOB_HOSTFILE'] = nf
         os.environ['COBALT_NODEFILE'] = nf
+        os.environ['COBALT_PARTNAME'] = '5-6'       # (a Cobalt job has both: the node file names the hosts, the partition name is a range of node ids)
         os.environ['SLURM_NODELIST'] = ','.join(HOSTS[h['id']][0] for h in case['hosts'])
         if case['env_cpus']:
             os.environ['SLURM_CPUS_ON_NODE'] = str(case['env_cpus'])
